@@ -103,9 +103,11 @@ def standin_scipy(tier, seed):
             real_minimize = sm.minimize
 
             def spy(fun, x0=None, args=(), **kws):
-                res = real_minimize(fun, x0=x0, args=args, **kws)
                 state, scaling = args
-                calls.append(dict(x0={k: v.squeeze(0).tolist() for k, v in scaling.unscaling(np.array(x0)).items()},
+                state0 = {n: state.get_tensor_value(n)[0].reshape(-1).tolist() for n in state.dag.individual_variable_names}
+                res = real_minimize(fun, x0=x0, args=args, **kws)
+                calls.append(dict(state0=state0,
+                                  x0={k: v.squeeze(0).tolist() for k, v in scaling.unscaling(np.array(x0)).items()},
                                   x={k: v.squeeze(0).tolist() for k, v in scaling.unscaling(res.x).items()},
                                   f0=fun(np.array(x0), *args) if not kws.get("jac") else None, f=res.fun))
                 return res
@@ -133,6 +135,13 @@ def standin_scipy(tier, seed):
                 if any(not np.allclose(got[k], c["x"][k], rtol=1e-5, atol=1e-6) for k in got):
                     violations.append(dict(key=f"{what}: the parameters returned for an individual are not the optimiser's result for that individual",
                                            subject=sid, returned=str(got), optimiser=str(c["x"])))
+                    break
+                x0_flat = {k: np.atleast_1d(np.array(v, dtype=float)).reshape(-1) for k, v in c["x0"].items()}
+                if any(not np.allclose(x0_flat[k], c["state0"][k], rtol=1e-4, atol=1e-5) for k in x0_flat):
+                    # "the point it started from": the individual values the model put in the subject's state (the deductive unit
+                    # OnePatient states the same); an optimiser started elsewhere is compared with another point than the property's
+                    violations.append(dict(key=f"{what}: the optimisation is not started from the individual values the model put in the subject's state",
+                                           subject=sid, state=str(c["state0"]), handed_to_scipy=str(c["x0"])))
                     break
                 f_start, f_ret = objective(model, data, sid, c["x0"]), objective(model, data, sid, got)
                 if not (f_ret <= f_start + 1e-4 * max(1.0, abs(f_start))):
